@@ -296,11 +296,14 @@ fn eat_variation_location_and_value(parser: &mut Parser, recovery: TokenSet) -> 
         return false;
     }
 
+    // an identifier that is not a valid tag is not consumed below: report
+    // progress only if something was, callers repeat while we return true
+    let start = parser.nth_range(0).start;
     let _ = parser.in_node(AstKind::LocationSpecNode, |parser| {
         eat_location_spec(parser, recovery)
     }) && parser.expect_recover(Kind::Colon, recovery)
         && parser.expect_recover(Kind::Number, recovery);
-    true
+    parser.nth_range(0).start != start
 }
 
 fn eat_location_spec(parser: &mut Parser, recovery: TokenSet) -> bool {
